@@ -49,7 +49,8 @@ def negotiation_stims(seed, tier, mc):
         shape = ['unary', 'sstream'][len(stims) % 2]
         msg = [[1, 2, 3], [], [0] * 40][(len(stims) // 2) % 3]
         stims.append({'mode': 'raw', 'class': 'negotiation_' + r['class'], 'transport': 'inproc', 'shape': shape,
-                      'server': {'send': r['send'], 'accept': r['accept'], 'max_dec': -1, 'max_enc': -1},
+                      # every fourth server is tonic::server::Grpc configured through EnabledCompressionEncodings (enable all, pop the unwanted)
+                      'server': {'send': r['send'], 'accept': r['accept'], 'max_dec': -1, 'max_enc': -1, 'via_config': len(stims) % 4 == 3},
                       'client': {'send': '', 'accept': [], 'max_dec': -1, 'max_enc': -1},
                       'req': {'meta': [], 'msgs': [msg]},
                       'script': {'init_meta': [], 'msgs': [[9] * 40] if shape == 'unary' else [[9] * 40, [], [7]], 'end': {'ok': True}, 'fail_before': False, 'no_compress': False},
